@@ -228,13 +228,30 @@ class Ownership:
         null_pat = ("eq", ("inst", alloc.id), 0)
         while work:
             (b, idx, pend), path = work.pop()
-            if (b, idx, pend) in seen:
-                continue
-            seen.add((b, idx, pend))
             blk = fn.blocks[b]
+            # a return of `phi [object, A], [NULL, B]` hands the object out only when the block is entered from A: the phi is read by the edge taken
+            pred = path[-2] if len(path) > 1 else None
+            rphi = None
+            last = blk.insts[-1] if blk.insts else None
+            if last is not None and last.op == "ret" and last.ops and last.ops[0][0] == "v" and pred is not None:
+                dphi = fn.defn(last.ops[0])
+                if dphi is not None and not dphi.is_param and dphi.op == "phi" and dphi.block.id == b:
+                    rphi = dphi
+            key = (b, idx, pend, pred if rphi is not None else None)
+            if key in seen:
+                continue
+            seen.add(key)
             state = pend
             done = False
             for i in blk.insts[idx:]:
+                if i.op == "ret" and rphi is not None:
+                    inc = [v for v, pb in rphi.incoming if pb == pred]
+                    if inc and all(not (v[0] == "v" and v[1] in aliases) for v in inc):
+                        # something else (NULL, a status) is returned on this way in: the object is still ours at the exit
+                        if state is None or state != "consumed":
+                            leaks.append((i, path))
+                        done = True
+                        break
                 d = discharge(i, state)
                 if d == "done":
                     done = True
